@@ -94,6 +94,33 @@ func vpC12Frozen(ti int) {
 			return nil
 		})
 	}
+	// lists with several members in an order no key sorts them by (ids descending, instants ascending,
+	// an IRI last): an operation that "tidies" a list it was only asked to read is a write
+	members := func() ItemCollection {
+		return ItemCollection{
+			&Object{ID: "https://h.ex/m9", Type: NoteType, Published: vpTimes[1], Updated: vpTimes[1]},
+			&Object{ID: "https://h.ex/m5", Type: NoteType, Published: vpTimes[0]},
+			IRI("https://h.ex/m7"),
+			&Actor{ID: "https://h.ex/m1", Type: PersonType, Published: vpTimes[0].AddDate(1, 0, 0)},
+		}
+	}
+	switch c := x.(type) {
+	case *OrderedCollection:
+		c.OrderedItems = members()
+	case *OrderedCollectionPage:
+		c.OrderedItems = members()
+	case *Collection:
+		c.Items = members()
+	case *CollectionPage:
+		c.Items = members()
+	case *Question:
+		c.AnyOf = members()
+	}
+	_ = OnObject(x, func(o *Object) error {
+		o.To = members()
+		o.Tag = members()
+		return nil
+	})
 	op := vpReadOps[vpChoice(len(vpReadOps))]
 	cell := op.name + "/" + vpTypeNames[ti]
 	vpFreeze()
@@ -122,7 +149,7 @@ func vpH_C12_lists() {
 	case 1:
 		x = IRIs{vpMkIRI('a'), vpMkIRI('b')}
 	default:
-		x = ItemCollection{vpMkIRI('a'), &Object{ID: vpMkIRI('b'), Type: NoteType, To: ItemCollection{vpMkIRI('t')}}}
+		x = ItemCollection{vpMkIRI('c'), &Object{ID: vpMkIRI('b'), Type: NoteType, Published: vpTimes[1], To: ItemCollection{vpMkIRI('t')}}, &Object{ID: vpMkIRI('a'), Type: NoteType, Published: vpTimes[0]}}
 	}
 	op := vpReadOps[vpChoice(len(vpReadOps))]
 	vpFreeze()
